@@ -35,6 +35,24 @@ LESSON = {
     "C12e": "missed -> the constructor's debug flag is switched on in 8-12 % of the scenarios (diagnostics must not change behaviour)",
     "C15e": "missed -> the recorded history is compared with the snapshots a second time, after the trend utilities have read it",
     "C18e": "missed -> the same dict object is re-submitted to set_config_parameters after being changed in place",
+    # round 6 (suffix f)
+    "C01f": "missed (tasks had at most 8 variables) -> three runs of every optimizer per batch on tasks with 33..257 variables, event budget 12 M for them",
+    "C02f": "missed (simulated worker processes shared the interpreter's module state; pools were never long-lived) -> fork semantics for module / class / user-side state (sim/procstate.py), objective reading user-side module state that changes between the runs of a history, earlier runs in the same pooled mode and size, simulated main process without a parent",
+    "C03f": "missed (no check touched HyperTuner.resolve's result) -> 10 % of the engine-G scenarios of every property obtain the observed result through HyperTuner.execute+resolve or as a Multitask trial",
+    "C04f": "missed -> boundary-parameter candidates and shrunken problems (2-8 agents, counts scaled) in the observational part of C04",
+    "C05f": "caught by the check as it stood (through histories on the same instance); the exact trigger (one Task object re-declared in place between runs) was added as a scenario",
+    "C06f": "missed, same root as C02f -> task classes defined after earlier runs + fork-aware unpickling in the pool model (a worker forked earlier dies: BrokenProcessPool)",
+    "C07f": "missed (C07 only called optimize() directly) -> the seeded serial runs are also launched as Multitask trials and compared with the plain run",
+    "C08f": "missed -> objective family that is exactly 0.0 on a region (hinge): 1/cost paths; caught in 1 run of the quick batch",
+    "C09f": "caught by the check as it stood (boundary-parameter candidates of the observational part), 1 run",
+    "C10f": "missed -> the earlier runs of an engine-G history may use another configuration of the same instance (larger / smaller / equal population), re-configured before the observed run",
+    "C11f": "missed: first every run raised inside the entropy tap (np.random.<Class> must stay a class) and the batch looked like a pass -> vacuity guard, class-preserving taps; then caught through fork semantics for module state + the replayed_positions oracle (C11 now covers integer-coded families)",
+    "C12f": "missed -> the direction given as the plain string 'max' after construction (10 % of the C12 scenarios)",
+    "C15f": "caught by the check as it stood (histories whose earlier run failed part-way)",
+    "C17f": "missed in the quick tier (needs the best initial agent in the last slot of an odd-sized population: < 1 expected run per batch) -> more odd sizes and shrunken problems in C17, value-dependent slowness fault (good points complete last); caught by the thorough tier",
+    "C18f": "caught by the check as it stood",
+    "C19f": "missed (real optimizers were tuned only in a few fixed scenarios) -> any of the 84 optimizers tuned over its own parameters on a seeded task; every trial must equal a freshly constructed optimizer's run",
+    "C20f": "missed (no failing objective in C20) -> typed objective failures (TypeError, AttributeError, PicklingError, ...) injected into Multitask runs; every started run must have its designated mode",
 }
 
 
